@@ -189,6 +189,9 @@ static carquet_status_t delta_decoder_read_mini_block(delta_decoder_t* dec) {
         }
 
         dec->pos += packed_size;
+    } else if (bit_width > 64) {
+        /* No delta of a 64-bit type needs more than 64 bits: corrupt width byte */
+        return CARQUET_ERROR_DECODE;
     } else {
         /* Unpack 64-bit values (stored as little-endian bytes) */
         int bytes_per_value = (bit_width + 7) / 8;
